@@ -78,7 +78,20 @@ pub fn gen_case(t: &mut Tape) -> Case {
     let (edit, step): (String, String) = match kind {
         0 if !dropped.is_empty() => {
             let n = *t.pick(&dropped);
-            match t.choose(6) {
+            // (a name that is also a std function is a legal value inside a case arm that is
+            // statically removed: the two case-arm edits use ordinary column names only)
+            let is_std = ["stddev", "any", "all", "concat_array", "add", "neg", "coalesce", "tuple_every", "read_csv", "mul"].contains(&n);
+            let k = t.choose(8);
+            let k = if is_std && k >= 6 { 1 } else { k };
+            match k {
+                6 => (
+                    format!("E1 dropped column `{n}` in a case arm after the catch-all"),
+                    format!(" | derive {{zz = case [true => 0, 1 == 1 => {n}]}}"),
+                ),
+                7 => (
+                    format!("E1 dropped column `{n}` in a case arm with a false condition"),
+                    format!(" | derive {{zz = case [false => {n}, true => 0]}}"),
+                ),
                 0 => (format!("E1 dropped column `{n}` in filter"), format!(" | filter {n} == {n}")),
                 1 => (format!("E1 dropped column `{n}` in derive"), format!(" | derive {{zz = {n}}}")),
                 2 => (format!("E1 dropped column `{n}` in sort"), format!(" | sort {{{n}}}")),
